@@ -628,4 +628,32 @@ XVariants == {"star-foreign-tag-missing", "star-foreign-tag-ok", "two-files-firs
               "foreign-struct-star", "foreign-struct-unexported-name", "foreign-struct-exported-name", "variadic-err-provider",
               "same-named-sets-two-packages", "two-unnamed-values", "same-name-packages", "two-fieldsof-items", "bind-after-concrete"}
 FamilyX(p, vs) == \E v \in vs : p = XProg(v)
+
+(* ======================================================================== *)
+(* Family R2: a chain P1 <- P2 <- ... <- Pn in which every link is realised *)
+(* in one of four ways - "d" the consumer takes the provider's type, "b" it *)
+(* takes an interface bound to it, "s" it takes a pointer to a struct that  *)
+(* wire.Struct builds around it, "f" it takes a field selected (FieldsOf)   *)
+(* from the struct the provider returns - with every flavour assignment.    *)
+(* Fault schedules as in family R: failures and cleanups interleaved with   *)
+(* the steps that are not provider calls.                                   *)
+(* ======================================================================== *)
+NS(pfx, j) == pfx \o ToString(j)
+R2Out(j, k) == CASE k = "b" -> Ptr(NS("C", j)) [] k = "f" -> NS("R", j) [] OTHER -> NS("T", j)      \* what Pj returns
+R2In(j, k)  == CASE k = "b" -> NS("I", j) [] k = "s" -> Ptr(NS("S", j)) [] k = "f" -> NS("U", j) [] OTHER -> NS("T", j)   \* what P(j-1) takes
+R2Prog(n, lk, fl) ==
+  LET kind(j) == IF j = 1 THEN "d" ELSE lk[j]
+      atoms == FlattenSeq([j \in 1..n |->
+                 <<Tok(NS("T", j)), Tok(NS("U", j)), Iface(NS("I", j), "a", <<>>),
+                   MkAtom(NS("C", j), "tok", "a", <<>>, <<>>, <<Impl(NS("I", j), "pointer")>>, ""),
+                   StructT(NS("S", j), "a", <<Fld("X", NS("T", j))>>), StructT(NS("R", j), "a", <<Fld("X", NS("U", j))>>)>>])
+      prov(j) == Func(PN(j), IF j < n THEN <<R2In(j + 1, kind(j + 1))>> ELSE <<>>, R2Out(j, kind(j)), FlCl(fl[j]), FlEr(fl[j]))
+      glue(j) == CASE kind(j) = "b" -> <<BindL(NS("B", j), NS("I", j), Ptr(NS("C", j)))>>
+                   [] kind(j) = "s" -> <<StructL(NS("St", j), NS("S", j), <<"X">>, FALSE)>>
+                   [] kind(j) = "f" -> <<FieldsL(NS("FO", j), NS("R", j), <<"X">>)>>
+                   [] OTHER -> <<>>
+      leaves == FlattenSeq([j \in 1..n |-> <<prov(j)>> \o glue(j)])
+      key == "R2/n" \o ToString(n) \o "/" \o ConcatStr([j \in 1..(n - 1) |-> lk[j + 1]]) \o "/" \o ConcatStr(fl)
+  IN [Prog(key, "R", atoms, leaves, <<>>, <<Inj("Inject", <<>>, "T1", TRUE, TRUE, [i \in DOMAIN leaves |-> ItL(i)])>>) EXCEPT !.fam = "R"]
+FamilyR2(p, n) == \E lk \in [2..n -> {"d", "b", "s", "f"}] : \E fl \in [1..n -> {"p", "e", "c", "b"}] : p = R2Prog(n, lk, fl)
 =============================================================================
